@@ -8,7 +8,9 @@ import (
 	"crypto/x509"
 	"crypto/x509/pkix"
 	"encoding/pem"
+	"errors"
 	"fmt"
+	"io"
 	"math/big"
 	"net"
 	"os"
@@ -245,6 +247,10 @@ func (li *Listener) acceptLoop(ctx context.Context) {
 			}
 			buf := make([]byte, 1)
 			n, err := qs.Read(buf)
+			if n == 1 && errors.Is(err, io.EOF) {
+				// the marker and the end of an otherwise empty stream arrived together
+				err = nil
+			}
 			if err != nil {
 				_ = qc.CloseWithError(500, fmt.Sprintf("Read Error: %s", err.Error()))
 				li.sendResult(ctx, nil, err)
